@@ -232,6 +232,8 @@ func genBinOps(atoms []logql.Expr) []logql.Expr {
 		{}, {ReturnBool: true}, {Op: "on", OpLabels: []logql.Label{"a"}}, {Op: "ignoring", OpLabels: []logql.Label{"a", "b"}}, {Op: "on", OpLabels: nil},
 		{Op: "on", OpLabels: []logql.Label{"a"}, Group: "left", Include: []logql.Label{"c"}}, {Op: "ignoring", OpLabels: []logql.Label{"a"}, Group: "right"},
 		{ReturnBool: true, Op: "on", OpLabels: []logql.Label{"a"}, Group: "left"},
+		// a label that is both ignored for matching and copied over
+		{Op: "ignoring", OpLabels: []logql.Label{"a"}, Group: "left", Include: []logql.Label{"a"}}, {Op: "ignoring", OpLabels: []logql.Label{"a", "b"}, Group: "right", Include: []logql.Label{"b", "c"}},
 	}
 	lits := []logql.Expr{&logql.LiteralExpr{Value: 2}, &logql.LiteralExpr{Value: -1.5}, &logql.LiteralExpr{Value: 1000}, &logql.VectorExpr{Value: 1}, &logql.VectorExpr{Value: 0.5}}
 	k := 0
@@ -471,6 +473,10 @@ var c05Static = []string{
 	`avg_over_time({a="b"} | unwrap v [5m]) by (a b)`,
 	`{a="b"} | label_format x=a, x=b`,
 	`{a="b"} | label_format x="t", x=b`,
+	`{a="b"} | label_format x=a, x="t"`,
+	`{a="b"} | label_format x="t", x="u"`,
+	`{a="b"} | label_format x=a, y=b, x="{{.z}}"`,
+	`{a="b"} | label_format y="t", x=a, z=b, x="u"`,
 	`{a=~"("}`,
 	`{a!~"[z-a]"}`,
 	`{a="b"} |~ "("`,
